@@ -332,3 +332,76 @@ def cm_released_args(p, fn, call, _depth=0):
         if all(protected(g, yn, rel) for yn in yields):
             out.append(arg)
     return out
+
+
+_EMPTY_MAKERS = {"dict", "OrderedDict", "WeakValueDictionary", "defaultdict"}
+
+
+def is_empty_mapping(e) -> bool:
+    """`{}` / `dict()` (a fresh empty mapping)."""
+    if isinstance(e, ast.Dict):
+        return not e.keys
+    return isinstance(e, ast.Call) and call_name(e) in _EMPTY_MAKERS and not e.keywords and \
+        (not e.args or (call_name(e) == "defaultdict" and len(e.args) == 1))
+
+
+def _self_field(e, sn):
+    return e.attr if isinstance(e, ast.Attribute) and isinstance(e.value, ast.Name) and e.value.id == sn else None
+
+
+def _stmt_resets(st, sn, names_of) -> set:
+    """Fields of `sn` (self) that the simple statement `st` re-binds to a fresh empty mapping (or empties in place):
+    `self.x = {}`, `self.x = self.y = {}`, `self.x, self.y = {}, {}`, `setattr(self, "x", {})`, `self.x.clear()`.
+    `names_of(expr)` gives the strings a field-name expression can stand for (None: unknown)."""
+    out = set()
+    if isinstance(st, (ast.Assign, ast.AnnAssign)) and st.value is not None:
+        tgs = st.targets if isinstance(st, ast.Assign) else [st.target]
+        for t in tgs:
+            if is_empty_mapping(st.value) and _self_field(t, sn):
+                out.add(_self_field(t, sn))
+            elif isinstance(t, (ast.Tuple, ast.List)) and isinstance(st.value, (ast.Tuple, ast.List)) and len(t.elts) == len(st.value.elts):
+                out |= {_self_field(a, sn) for a, b in zip(t.elts, st.value.elts) if _self_field(a, sn) and is_empty_mapping(b)}
+    elif isinstance(st, ast.Expr) and isinstance(st.value, ast.Call):
+        c = st.value
+        if isinstance(c.func, ast.Name) and c.func.id == "setattr" and len(c.args) == 3 and isinstance(c.args[0], ast.Name) and c.args[0].id == sn and is_empty_mapping(c.args[2]):
+            out |= set(names_of(c.args[1]) or ())
+        elif isinstance(c.func, ast.Attribute) and c.func.attr == "clear" and not c.args and _self_field(c.func.value, sn):
+            out.add(_self_field(c.func.value, sn))
+    return out
+
+
+def field_resets(g, fn_node, sn) -> dict:
+    """CFG node -> set of fields of self reset to an empty mapping by that node.  A loop `for v in (<names>): setattr(self, v,
+    {})` over a non-empty literal sequence of names counts as a whole (at its head) for every listed name."""
+    facts = Facts(fn_node)
+
+    def literal_names(e):
+        e = facts.x(e)
+        if isinstance(e, (ast.List, ast.Tuple, ast.Set)) and e.elts and all(isinstance(x, ast.Constant) and isinstance(x.value, str) for x in e.elts):
+            return [x.value for x in e.elts]
+        if isinstance(e, ast.Dict) and e.keys and all(isinstance(x, ast.Constant) and isinstance(x.value, str) for x in e.keys):
+            return [x.value for x in e.keys]
+        return None
+
+    def const_name(e):
+        return [e.value] if isinstance(e, ast.Constant) and isinstance(e.value, str) else None
+
+    out = {}
+    for n in g.nodes:
+        if n.kind == "stmt" and n.ast is not None and not isinstance(n.ast, list):
+            r = _stmt_resets(n.ast, sn, const_name)
+            if r:
+                out[n] = r
+        elif n.kind == "foriter" and isinstance(n.stmt, ast.For) and isinstance(n.stmt.target, ast.Name) and not n.stmt.orelse:
+            names = literal_names(n.stmt.iter)
+            if not names:
+                continue
+            var = n.stmt.target.id
+            r = set()
+            for st in n.stmt.body:
+                if any(isinstance(x, (ast.Break, ast.Continue, ast.Return, ast.Raise)) for x in ast.walk(st)):
+                    break
+                r |= _stmt_resets(st, sn, lambda e, var=var, names=names: names if isinstance(e, ast.Name) and e.id == var else None)
+            if r:
+                out[n] = r
+    return out
